@@ -41,19 +41,32 @@ KeySeqs(ks, m) ==
     ELSE {<<Head(ks)>> \o r : r \in KeySeqs(Tail(ks), m - 1)} \cup KeySeqs(Tail(ks), m)
 Zip(ks, vs) == [i \in DOMAIN ks |-> <<ks[i], vs[i]>>]
 
-RECURSIVE Vals(_, _), SeqsW(_, _, _)
-\* values of weight exactly w, d container levels below the root
-Vals(w, d) ==
-    (IF w = 1 THEN CoreLeaves ELSE {}) \cup (IF w = 2 THEN ExoticLeaves ELSE {})
-    \cup (IF d < MaxDepth
-          THEN UNION {{ListV(s) : s \in SeqsW(w - 1, m, d + 1)} : m \in 0..(w - 1)}
-               \cup UNION {{DictV(Zip(ks, s)) : ks \in KeySeqs(NestKeys, m), s \in SeqsW(w - 1, m, d + 1)} :
-                             m \in 0..(w - 1)}
-          ELSE {})
-\* sequences of m values of total weight exactly w
-SeqsW(w, m, d) ==
-    IF m = 0 THEN (IF w = 0 THEN {<<>>} ELSE {})
-    ELSE UNION {{<<x>> \o s : x \in Vals(a, d), s \in SeqsW(w - a, m - 1, d)} : a \in 1..(w - m + 1)}
+(* The candidate sets are tabulated bottom-up (TLCEval forces each table once; a plain
+   recursive definition would recompute the lower levels exponentially often). *)
+W == 0..Budget
+LeafTab == [w \in W |-> IF w = 1 THEN CoreLeaves ELSE IF w = 2 THEN ExoticLeaves ELSE {}]
+
+\* SeqTabs(T, m)[k + 1][w] = sequences of k values drawn from table T with total weight w
+RECURSIVE SeqTabs(_, _)
+SeqTabs(T, m) ==
+    IF m = 0 THEN << [w \in W |-> IF w = 0 THEN {<<>>} ELSE {}] >>
+    ELSE LET p    == SeqTabs(T, m - 1)
+             last == p[m]
+         IN  Append(p, TLCEval([w \in W |->
+                 UNION {{<<x>> \o s : x \in T[a], s \in last[w - a]} : a \in 1..w}]))
+
+\* values by weight one level further up: the leaves, and lists / dicts over the values of T
+Up(T, keys) ==
+    LET st == SeqTabs(T, Budget)
+    IN  TLCEval([w \in W |->
+            IF w = 0 THEN {}
+            ELSE LeafTab[w]
+                 \cup UNION {{ListV(s) : s \in st[m + 1][w - 1]} : m \in 0..(w - 1)}
+                 \cup UNION {{DictV(Zip(ks, s)) : ks \in KeySeqs(keys, m), s \in st[m + 1][w - 1]} :
+                               m \in 0..(w - 1)}])
+RECURSIVE TabAt(_)
+\* values by weight, d container levels below the root
+TabAt(d) == IF d = MaxDepth THEN LeafTab ELSE Up(TabAt(d + 1), NestKeys)
 
 \* a few trees outside some format's domain or with awkward keys
 ExtraTrees ==
@@ -66,10 +79,10 @@ ExtraTrees ==
       DictV(<< <<S(<<"x","m","l">>), FloatH(-1)>>, <<S(<<"A">>), S(<<"a">>)>>, <<S(<<"a">>), S(<<"A">>)>> >>) }
 
 MCTrees ==
-    LET body == UNION {{DictV(Zip(ks, s)) : ks \in KeySeqs(RootKeys, m),
-                                            s \in UNION {SeqsW(w, m, 0) : w \in m..Budget}} :
-                         m \in 0..Budget}
-    IN  body \cup ExtraTrees
+    LET rt == SeqTabs(TabAt(0), Budget)
+    IN  UNION {{DictV(Zip(ks, s)) : ks \in KeySeqs(RootKeys, m),
+                                    s \in UNION {rt[m + 1][w] : w \in m..Budget}} : m \in 0..Budget}
+        \cup ExtraTrees
 
 \* the plan: every format, every option value, and two loads with the wrong root tag
 O == DefaultOpts
